@@ -387,6 +387,43 @@ fn run(ctx: &mut Ctx) {
     scalar_extract::<Decimal>(ctx, "Decimal", &p.all, |v| if let Value::Decimal(d) = v { Some(*d) } else { None });
     scalar_extract::<DateTime<Utc>>(ctx, "DateTime", &p.all, |v| if let Value::DateTime(d) = v { Some(*d) } else { None });
     scalar_extract::<TimeDelta>(ctx, "Duration", &p.all, |v| if let Value::Duration(d) = v { Some(*d) } else { None });
+    // random (non-boundary) values of every kind: into a Value and back, and as the wrong kind for every other target
+    {
+        let mut rng = ctx.rng.clone();
+        for _ in 0..3_000 {
+            let t = crate::pools::TYPES[rng.below(9)];
+            let v = crate::pools::random_value(&mut rng, t);
+            ctx.count();
+            ctx.hit("random-values");
+            let ok = match &v {
+                Value::String(s) => matches!(got(guard(|| String::try_from(Value::from(s.clone())))), Got::Ok(ref x) if x == s) && matches!(got(guard(|| i64::try_from(v.clone()))), Got::WrongType(ref o) if same(o, &v)),
+                Value::Float(f) => matches!(got(guard(|| f64::try_from(Value::from(*f)))), Got::Ok(x) if x.to_bits() == f.to_bits()) && matches!(got(guard(|| String::try_from(v.clone()))), Got::WrongType(ref o) if same(o, &v)),
+                Value::Decimal(d) => matches!(got(guard(|| Decimal::try_from(Value::from(*d)))), Got::Ok(x) if x == *d && x.scale() == d.scale()) && matches!(got(guard(|| bool::try_from(v.clone()))), Got::WrongType(ref o) if same(o, &v)),
+                Value::DateTime(d) => matches!(got(guard(|| DateTime::<Utc>::try_from(Value::from(*d)))), Got::Ok(x) if x == *d) && matches!(got(guard(|| TimeDelta::try_from(v.clone()))), Got::WrongType(ref o) if same(o, &v)),
+                Value::Duration(d) => matches!(got(guard(|| TimeDelta::try_from(Value::from(*d)))), Got::Ok(x) if x == *d) && matches!(got(guard(|| f64::try_from(v.clone()))), Got::WrongType(ref o) if same(o, &v)),
+                Value::Int(n) => matches!(got(guard(|| i128::try_from(Value::from(*n)))), Got::Ok(x) if x == *n),
+                Value::Bool(b) => matches!(got(guard(|| bool::try_from(Value::from(*b)))), Got::Ok(x) if x == *b),
+                Value::Vec(xs) => {
+                    // Vec<V> needs one element type: extraction as Vec<String> succeeds iff all are strings
+                    let all_strings = xs.iter().all(|x| matches!(x, Value::String(_)));
+                    match got(guard(|| Vec::<String>::try_from(v.clone()))) {
+                        Got::Ok(ys) => all_strings && ys.len() == xs.len(),
+                        Got::WrongType(o) => !all_strings && xs.iter().find(|x| !matches!(x, Value::String(_))).map(|x| same(x, &o)).unwrap_or(false),
+                        _ => false,
+                    }
+                }
+                Value::Map(m) => match got(guard(|| BTreeMap::<String, Value>::try_from(v.clone()))) {
+                    Got::Ok(b) => b.len() == m.len() && b.iter().zip(m.iter()).all(|((k1, x), (k2, y))| k1 == k2 && same(x, y)),
+                    _ => false,
+                },
+                Value::None => true,
+            };
+            if !ok {
+                bad(ctx, "random-value", "roundtrip-or-wrong-kind", "a random value did not survive Value::from / try_from, or the wrong-kind error did not carry it".into(), &v);
+            }
+        }
+        ctx.rng = rng;
+    }
     // f64 separately: NaN != NaN under PartialEq
     for v in &p.all {
         if !ctx.mine() {
